@@ -54,6 +54,24 @@ CHECKS['C08'] = (
     'Partial: preservation lemmas per operation for the rules prune does not repair are not proved.',
     BASE_NOTE + 'jsonschema package for the generic schema part.', '6/C08')
 
+CHECKS['C01'] = (
+    'Lean 4 theorems about the compose model (merge appends shells and reference groups in component order, a second ECP is refused, metadata '
+    'update semantics, function_types membership) + differential execution: model composeTable over the closure of JSON files vs get_basis, ordered and byte-exact',
+    'Proof (on the model): mergeElementData_spec (shells and reference groups are exactly the concatenation over the components, in order), '
+    'mergeElementData_two_ecps (refusal), get?_update_* (which file a metadata field comes from), mem_sortDedupStr (function_types). Tie: the model '
+    'composes the same JSON files and must equal the returned dictionary key for key in insertion order (exhaustive over the store in the thorough tier) '
+    'and agree on refusals for synthetic directories with one planted inconsistency. An independent recomposition in the harness states the property directly. '
+    'Partial: composeTable = composeSpec is not proved as one theorem; its parts are.',
+    BASE_NOTE + 'CPython json decoding; os.path string handling modelled on ASCII "/"-paths.', '6/C01')
+CHECKS['C05'] = (
+    'Lean 4 theorems about the get_basis front-end model (selection = restriction, notation invariance, empty = all, missing element = KeyError, '
+    'version defaulting/int-str, case-insensitive name transform) + differential execution and direct predicates on get_basis/get_references',
+    'Proof (on the model): select_is_restriction, select_notation_invariant (any two selections with the same expansion set, error cases included), '
+    'select_missing_keyerror, select_empty_is_all, version_* , transform_case_insensitive; with C20 for the expansion of every notation. Tie: the model '
+    'selection/version functions vs the implementation on the same inputs; the property itself is evaluated on the real results for every capitalisation, '
+    'alias, 11+ notations of each selection, ranges crossing undefined elements and malformed strings.',
+    BASE_NOTE + 'ASCII names.', '6/C05')
+
 NOT_YET = {}
 
 
